@@ -559,6 +559,53 @@ fn run_name_chunk(c: &NameChunk, obs: &mut Obs) -> CheckResult {
     Ok(())
 }
 
+//------------ many entries ----------------------------------------------------------------
+
+/// Manifests with entry counts across the points where a counter kept in 8 or 16 bits
+/// would wrap: `len()` is the number of entries `iter()` and `iter_uris()` yield.
+#[derive(Clone, Debug, Serialize, Deserialize)]
+pub struct ManyEntries {
+    pub count: u32,
+}
+
+const MANY_COUNTS: [u32; 12] = [255, 256, 257, 4095, 4096, 65_534, 65_535, 65_536, 65_537, 70_000, 131_072, 131_075];
+
+fn run_many(c: &ManyEntries, obs: &mut Obs) -> CheckResult {
+    ensure!(c.count <= 300_000, "malformed case");
+    let list: Vec<MftEntry> = (0..c.count)
+        .map(|i| MftEntry { name: format!("f{:x}.roa", i).into_bytes(), hash: keys::sha256(&i.to_be_bytes()).to_vec(), unused: 0 })
+        .collect();
+    let t = TimeEnc::new(c02::ymd(2026, 1, 1), true);
+    let n = TimeEnc::new(c02::ymd(2026, 1, 2), true);
+    let content = der::manifest_content(&[1], t, n, &list, false);
+    let base = uri::Rsync::from_str(BASES[1]).unwrap();
+    let decoded: Vec<(&str, Result<ManifestContent, String>)> = vec![
+        (
+            "ManifestContent::take_from",
+            no_panic("ManifestContent::take_from", || bcder::Mode::Der.decode(content.as_slice(), ManifestContent::take_from))?.map_err(|e| e.to_string()),
+        ),
+        (
+            "Manifest::decode",
+            no_panic("Manifest::decode", || Manifest::decode(wrap(&content).as_slice(), true))?.map(|m| m.content().clone()).map_err(|e| e.to_string()),
+        ),
+    ];
+    for (what, r) in decoded {
+        let m = r.map_err(|e| Fail::new(format!("{} refused a manifest with {} valid entries: {}", what, c.count, e)))?;
+        let it = no_panic("iter", || m.iter().count())?;
+        let uris = no_panic("iter_uris", || m.iter_uris(&base).count())?;
+        ensure_sig!(
+            m.len() == c.count as usize && it == c.count as usize && uris == c.count as usize && m.is_empty() == (c.count == 0),
+            "len-vs-entries",
+            "{}: a manifest with {} entries reports len() = {}, iter() yields {}, iter_uris() yields {}",
+            what, c.count, m.len(), it, uris
+        );
+        let last = m.iter().last().map(|f| f.file().to_vec());
+        ensure!(last == list.last().map(|e| e.name.clone()), "{}: last entry of {} differs", what, c.count);
+    }
+    obs.nontrivial();
+    Ok(())
+}
+
 pub fn property() -> Property {
     Property {
         id: "C14",
@@ -595,6 +642,14 @@ pub fn property() -> Property {
                 make: |_, _, idx| NameChunk { start: idx * CHUNK, len: CHUNK },
                 run: run_name_chunk,
                 exhaustive: true,
+            }
+            .boxed(),
+            EnumSub {
+                name: "many-entries",
+                count: |_, _| MANY_COUNTS.len() as u64,
+                make: |_, _, idx| ManyEntries { count: MANY_COUNTS[idx as usize] },
+                run: run_many,
+                exhaustive: false,
             }
             .boxed(),
         ],
